@@ -157,6 +157,74 @@ Section Atomic.
       + specialize (IH z t Hr). destruct (run_manual st c ops z t). cbn in *. exact IH.
   Qed.
 
+  (* ------------------------------------------------------------ and a clean exit publishes *)
+  Definition is_end (o : op) : bool := match o with OCommit | ORollback => true | _ => false end.
+  Definition no_end (ops : list op) : Prop := Forall (fun o => is_end o = false) ops.
+
+  (* the transaction state after the calls of a with-block, when none of them raised *)
+  Fixpoint final_txn (ops : list op) (z : P) (t : txn (S:=S)) : option (txn (S:=S)) :=
+    match ops with
+    | [] => Some t
+    | o :: r => match step st c o z t with
+                | Ok (_, z', t') => final_txn r z' t'
+                | _ => None
+                end
+    end.
+
+  Lemma step_keeps_open o z t x z' t' :
+    is_end o = false -> step st c o z t = Ok (x, z', t') -> z' = z /\ t_ended t' = t_ended t /\ t_ro t' = t_ro t.
+  Proof.
+    intros Hc. destruct o; cbn [step]; try discriminate Hc.
+    1-2: unfold hl_write; destruct (t_ended t) eqn:?; cbn [bind]; try discriminate;
+         destruct (t_ro t) eqn:?; cbn [bind]; try discriminate;
+         destruct (hl_add st c _ a (t_st t)); cbn [bind]; try discriminate;
+         intros H; injection H as _ Hz Ht; rewrite <- Hz, <- Ht; cbn; auto.
+    1-2: unfold hl_write; destruct (t_ended t) eqn:?; cbn [bind]; try discriminate;
+         destruct (t_ro t) eqn:?; cbn [bind]; try discriminate;
+         destruct (hl_delete st _ a (t_st t)); cbn [bind]; try discriminate;
+         intros H; injection H as _ Hz Ht; rewrite <- Hz, <- Ht; cbn; auto.
+    - unfold hl_update_serial. destruct (t_ended t) eqn:Ee; cbn [bind]; try discriminate.
+      destruct (value <? 0); cbn [bind]; try discriminate.
+      destruct (match n with None => _ | Some a => _ end); cbn [bind]; try discriminate.
+      destruct (s_get _ _ _ _ _) as [ex| |]; cbn [bind]; try discriminate. destruct ex as [e0|]; cbn [bind]; try discriminate.
+      destruct (r_items e0) as [|[body serial] ?]; cbn [bind]; try discriminate.
+      destruct (if relative then _ else _); cbn [bind]; try discriminate.
+      unfold hl_write. rewrite Ee. destruct (t_ro t) eqn:Er; cbn [bind]; try discriminate.
+      match goal with |- context [hl_add ?a1 ?a2 ?a3 ?a4 ?a5] => destruct (hl_add a1 a2 a3 a4 a5) end; cbn [bind]; try discriminate.
+      intros H; injection H as _ Hz Ht; rewrite <- Hz, <- Ht; cbn; repeat split; auto; congruence.
+    - destruct (t_ended t) eqn:Ee; [discriminate|]. destruct (name_of_arg n); cbn [bind]; try discriminate.
+      destruct (make_type (AInt ty)); cbn [bind]; try discriminate.
+      destruct (make_type (AInt cov)); cbn [bind]; try discriminate.
+      destruct (s_get _ _ _ _ _); cbn [bind]; intros H; inversion H; subst; auto; repeat split; congruence.
+    - destruct (t_ended t) eqn:Ee; [discriminate|]. destruct (name_of_arg n); cbn [bind]; try discriminate.
+      destruct (s_exists _ _ _); cbn [bind]; intros H; inversion H; subst; auto; repeat split; congruence.
+    - destruct (t_ended t) eqn:Ee; [discriminate|]. intros H; inversion H; subst; auto; repeat split; congruence.
+    - destruct (t_ended t) eqn:Ee; [discriminate|]. destruct (s_count st (t_st t)). intros H; inversion H; subst; auto; repeat split; congruence.
+    - destruct (t_ended t) eqn:Ee; [discriminate|]. destruct (name_of_arg n); cbn [bind]; try discriminate.
+      destruct (s_node _ _ _); cbn [bind]; intros H; inversion H; subst; auto; repeat split; congruence.
+  Qed.
+
+  (* a with-block whose calls all succeed commits on exit: the published zone becomes the private state of
+     the transaction (what its own reads saw) if the transaction changed anything, and stays otherwise *)
+  Theorem clean_exit_commits ops : forall z t outs z',
+    no_end ops -> t_ended t = false ->
+    run_with st c ops None z t = (outs, z') -> existsb is_err outs = false ->
+    exists t', final_txn ops z t = Some t' /\
+               z' = if negb (t_ro t') && s_changed st (t_st t') then s_publish st (t_st t') else z.
+  Proof.
+    induction ops as [|o ops IH]; intros z t outs z' Hn He.
+    - cbn [run_with final_txn]. intros H _. inversion H; subst. exists t. split; [reflexivity|].
+      unfold hl_exit, hl_end. rewrite He. cbn. rewrite andb_true_r. reflexivity.
+    - inversion Hn as [|? ? Ho Hr]; subst. cbn [run_with final_txn].
+      destruct (step st c o z t) as [[[x z1] t1]|e|e] eqn:Es.
+      + destruct (step_keeps_open o z t x z1 t1 Ho Es) as (-> & He1 & _).
+        destruct (run_with st c ops None z t1) as [outs1 zf] eqn:Er.
+        intros H; inversion H; subst. cbn [existsb is_err orb]. intros Hx.
+        apply (IH z t1 outs1 z' Hr); auto. congruence.
+      + intros H; inversion H; subst. cbn. discriminate.
+      + intros H; inversion H; subst. cbn. discriminate.
+  Qed.
+
   (* ------------------------------------------------------------ ended / read-only transactions refuse *)
   Theorem ended_refuses o z t : t_ended t = true -> step st c o z t = Lib eAlreadyEnded.
   Proof.
